@@ -93,6 +93,99 @@ def _diffcell_mask(p, shape):
     return m
 
 
+# ------------------------------------------------------------------------------------- C02
+
+
+def _collapsed(p, monitor, key, marg, cell, axis):
+    """A margin is the collapsed form of the per-cell bases: a 1-D margin repeats along the
+    opposing axis, a 2-D margin (bases that vary by cell) equals the per-cell array."""
+    if marg is None or cell is None or cell.ndim != 2:
+        return
+    if marg.ndim == 2:
+        exp = marg
+    elif marg.ndim == 1 and marg.shape[0] == cell.shape[axis]:
+        exp = np.repeat(marg[:, None], cell.shape[1], axis=1) if axis == 0 else np.repeat(
+            marg[None, :], cell.shape[0], axis=0)
+    elif marg.ndim == 0:
+        exp = np.full(cell.shape, float(marg))
+    else:
+        p.check(monitor, False, key + "/shape", {"margin": list(marg.shape),
+                                                  "cells": list(cell.shape)})
+        return
+    if exp.shape != cell.shape:
+        p.check(monitor, False, key + "/shape", {"margin": list(marg.shape),
+                                                  "cells": list(cell.shape)})
+        return
+    ok, det = cmp.same(cell, exp, rtol=1e-9, atol=1e-9)
+    p.check(monitor, ok, key, det)
+
+
+def c02(p, ctx):
+    if p.is_slice:
+        if any(t in NUMARR for t in p.dim_types):
+            p.res.skipped["c02_numeric_array"] += 1
+            return
+        for marg, cell, axis in (("rows_base", "row_unweighted_bases", 0),
+                                 ("rows_margin", "row_weighted_bases", 0),
+                                 ("columns_base", "column_unweighted_bases", 1),
+                                 ("columns_margin", "column_weighted_bases", 1)):
+            _collapsed(p, "i_margin_is_collapsed_base", "c02/%s" % marg, p.arr(marg),
+                       p.arr(cell), axis)
+        for marg, cell in (("table_base", "table_unweighted_bases"),
+                           ("table_margin", "table_weighted_bases")):
+            m, c = p.arr(marg), p.arr(cell)
+            if m is None or c is None or c.ndim != 2:
+                continue
+            if m.ndim == 0:
+                exp = np.full(c.shape, float(m))
+            elif m.ndim == 1 and m.shape[0] == c.shape[0] and m.shape[0] != c.shape[1]:
+                exp = np.repeat(m[:, None], c.shape[1], axis=1)
+            elif m.ndim == 1 and m.shape[0] == c.shape[1] and m.shape[0] != c.shape[0]:
+                exp = np.repeat(m[None, :], c.shape[0], axis=0)
+            elif m.ndim == 2 and m.shape == c.shape:
+                exp = m
+            else:
+                continue  # square tables: the orientation of a 1-D table base is not observable
+            # inserted vectors carry sums of their addends' bases in the per-cell arrays only
+            keep = np.ones(c.shape, dtype=bool)
+            for i in p.idxs("inserted_row_idxs") or []:
+                if 0 <= i < c.shape[0]:
+                    keep[i, :] = False
+            for j in p.idxs("inserted_column_idxs") or []:
+                if 0 <= j < c.shape[1]:
+                    keep[:, j] = False
+            _same_where(p, "i_table_base_is_collapsed", "c02/%s" % marg, c, exp, keep,
+                        atol=1e-9)
+        size = ctx.get("mask_size")
+        mk = p.get("min_base_size_mask")
+        if size is not None and mk.ok:
+            for nm, basen in (("row_mask", "row_unweighted_bases"),
+                              ("column_mask", "column_unweighted_bases"),
+                              ("table_mask", "table_unweighted_bases")):
+                g, b = read(mk.value, nm), p.arr(basen)
+                if not g.ok or b is None:
+                    continue
+                with np.errstate(invalid="ignore"):
+                    exp = b < size
+                got = np.asarray(g.value)
+                ok = got.shape == exp.shape and bool(np.array_equal(got, exp))
+                p.check("i_mask_is_base_below_size", ok, "c02/mask/%s" % nm,
+                        None if ok else {"got": got.tolist(), "exp": exp.tolist()})
+    elif p.is_strand:
+        ub, wb = p.arr("unweighted_bases"), p.arr("weighted_bases")
+        if ctx.get("display_transforms") is False:
+            ins = set(p.idxs("inserted_row_idxs") or [])
+            for rng, b in (("table_base_range", ub), ("table_margin_range", wb)):
+                r = p.arr(rng)
+                if r is None or b is None or b.size == 0:
+                    continue
+                v = np.array([x for i, x in enumerate(b) if i not in ins])
+                if v.size == 0 or np.any(np.isnan(v)):
+                    continue
+                ok, det = cmp.same(r, np.array([v.min(), v.max()]), rtol=1e-9, atol=1e-9)
+                p.check("i_range_is_min_max", ok, "c02/strand/%s" % rng, det)
+
+
 # ------------------------------------------------------------------------------------- C03
 
 
@@ -450,7 +543,7 @@ def c07(p, ctx):
                 None if kinds_ok else {"signed": sv, "bogus": [str(y) for y in bv]})
 
 
-RELATIONS = {"C03": c03, "C07": c07, "C11": c11, "C12": c12, "C13": c13, "C14": c14,
+RELATIONS = {"C02": c02, "C03": c03, "C07": c07, "C11": c11, "C12": c12, "C13": c13, "C14": c14,
              "C15": c15, "C16": c16, "C17": c17}
 
 
